@@ -11,3 +11,5 @@ import Ypv.Props.C07
 #print axioms Ypv.C07.search_in_document_order
 #print axioms Ypv.C07.search_reports_once
 #print axioms Ypv.C07.positions_distinct
+#print axioms Ypv.C07.search_auto_is_dot
+#print axioms Ypv.C07.search_paths_reresolve_sep
